@@ -181,10 +181,32 @@ func (t *TargetsManager) doCallbacks() error {
 
 func (t *TargetsManager) saveTargets() error {
 	data, _ := json.Marshal(&t.targets)
-	if err := ioutil.WriteFile(t.storePath(), data, 0755); err != nil {
+	// write to a temp file in the same directory and rename it to the store path,
+	// a crash or a failed write never leaves a truncated store file
+	tmp, err := ioutil.TempFile(t.storeDir, storeFileName+".tmp")
+	if err != nil {
 		return err
 	}
-	return nil
+	defer os.Remove(tmp.Name())
+
+	if _, err := tmp.Write(data); err != nil {
+		_ = tmp.Close()
+		return err
+	}
+
+	if err := tmp.Sync(); err != nil {
+		_ = tmp.Close()
+		return err
+	}
+
+	if err := tmp.Close(); err != nil {
+		return err
+	}
+
+	if err := os.Chmod(tmp.Name(), 0755); err != nil {
+		return err
+	}
+	return os.Rename(tmp.Name(), t.storePath())
 }
 
 func (t *TargetsManager) storePath() string {
